@@ -413,7 +413,7 @@ func RunC10(tier string, seed int64, outDir string, replay string) (*core.Result
 	res.Rule = "random programs decorated with @genqlient options at every location (fields, variables, operations, fragments, `for:` entries for output and input fields; several directive lines per node with comments between; a small share of placements that must be rejected) under random genqlient.yaml settings (optional value/pointer/generic, use_struct_references, casing, bindings with and without marshalers); every emitted declaration is compared with the converter model in-kernel, and variables / response fields with an executable transcription of the documentation; non-trivial = accepted program; distinct by program text + config"
 	n := 120
 	if tier == "thorough" {
-		n = 1200
+		n = 3600
 	}
 	return runConv("C10", res, n, seed, outDir, replay, []float64{0.3, 0.15, 0.4}, 0.02, func(c *Case, o *Observed, ex *export.Exported) {
 		if o.Class == "ok" {
